@@ -86,6 +86,9 @@ OpSpec base_op(const Scn &s, int kind, int slot, SimFile *fin, SimFile *fout, lo
 // run an operation of the current scenario; records decisions into g_ctx
 OpResult run_slot(const Scn &s, OpSpec &op, int slot, const char *opname, HangPolicy hp);
 
+// C18 on the command-line path (implemented next to C15's argv machinery)
+Verdict run_C18_cli(const Scn &s);
+
 // ---- property registry
 typedef Verdict (*RunFn)(const Scn &);
 typedef void (*GenFn)(const std::string &tier, uint64_t seed, long idx, Scn &out);
